@@ -13,8 +13,8 @@ def simple_cmd(rng, case, nthreads, C, bt=True):
         lvl = rng.choice([0, 3, 4, 4, 4, 6, 7, 8])
         mode = 0 if rng.random() < 0.93 else rng.choice([1, 2])
         i = case.next_id; case.next_id += 1
-        st = rng.random() < 0.3
-        return ('log', t, i, lg, lvl, HDR_LOG + pad - (1 if st else 0), mode + (10 if st else 0), rng.random() < 0.06)
+        st = rng.random() < 0.3; nm = (not st) and rng.random() < 0.3
+        return ('log', t, i, lg, lvl, HDR_LOG + pad - (1 if st else 0), mode + (20 if nm else 10 if st else 0), rng.random() < 0.06)
     if r < 0.58 and bt:
         lg = rng.randrange(len(case.loggers)); i = case.next_id; case.next_id += 1
         k = rng.random()
